@@ -41,13 +41,16 @@ EditsOf(f, fld) ==
   CASE fld.k = "magic"    -> {[off |-> o, vals |-> v] : v \in {<<0, 20>>, <<136, 20>>, <<137, 21>>, <<20, 137>>}}
     [] fld.k = "hdr"      -> {[off |-> o, vals |-> <<v>>] : v \in {0, 1, 127, 128, 129, 130, 131, 132, 133, 134, 200, 255}}
     [] fld.k = "cpusg"    -> {[off |-> o, vals |-> <<v>>] : v \in {0, 255}}
-                             \cup {[off |-> o + 1, vals |-> <<v>>] : v \in {0, 9, 10, 11, 255}}
+                             \cup {[off |-> o + 1, vals |-> <<v>>] : v \in {0, 9, 10, 11, 12, 255}}
                              \cup {[off |-> o + 2, vals |-> <<v>>] : v \in {0, 1, 2, 3, 8, 255}}
     [] fld.k = "addr"     -> {[off |-> o, vals |-> <<255, 255, 255, 255>>], [off |-> o, vals |-> <<255, 255, 255, 127>>]}
     [] fld.k = "len"      -> LET rest == Len(f) - (o + 2) IN
                              {[off |-> o, vals |-> LE16(v)] : v \in {0, 1, rest, rest + 1, 65535}}
     [] fld.k = "entry"    -> {[off |-> o, vals |-> <<255, 255, 255, 255>>]}
     [] fld.k = "reloccnt" -> {[off |-> o + d, vals |-> v] : d \in {0, 4, 8}, v \in {<<255, 255, 255, 255>>, <<0, 0, 0, 16>>, <<0, 0, 0, 0>>, <<2, 0, 0, 0>>}}
+    [] fld.k = "relocdata" -> \* string offsets of the first relocation / export entry (toolutils.c ReadRelocInfo)
+                             IF fld.n >= 36 THEN {[off |-> o + d, vals |-> v] : d \in {8, 16}, v \in {<<255, 255, 255, 127>>, <<100, 0, 0, 0>>, <<255, 255, 255, 255>>}}
+                             ELSE {}
     [] OTHER              -> {}
 
 Faults(n) ==
@@ -67,6 +70,8 @@ Apply(f, ft) ==
 FieldAt(n, p) == LET flds == Verdict(Base(n)).fields
                      hit  == {i \in 1..Len(flds) : flds[i].off <= p /\ p < flds[i].off + flds[i].n} IN
                  IF hit = {} THEN "creator" ELSE flds[CHOOSE i \in hit : TRUE].k
+
+ASSUME PrintT(<<"OUT", ToJson([documented |-> DocumentedToolExit])>>)
 
 VARIABLES base, fault, file, r
 vars == <<base, fault, file, r>>
